@@ -33,9 +33,27 @@ def lemmas(reg):
              z3.Select(t, b + 1) - z3.Select(t, a) >= b + 1 - a)]
 
 
+POW2 = z3.Function("pow2", z3.IntSort(), z3.IntSort())
+ILOG2 = z3.Function("ilog2", z3.IntSort(), z3.IntSort())
+
+
+def ax_pow2():
+    """arithmetic facts about 2**e and its inverse on exact powers (trusted axioms of two total functions)"""
+    e = z3.Int("e!p")
+    return [POW2(0) == 1,
+            z3.ForAll([e], z3.Implies(e >= 1, POW2(e) == 2 * POW2(e - 1)), patterns=[POW2(e)]),
+            z3.ForAll([e], z3.Implies(e >= 0, z3.And(POW2(e) >= 1, ILOG2(POW2(e)) == e)), patterns=[POW2(e)])]
+
+
+def sf_ispow2(ex, st, m):
+    m = to_int(m)
+    return vbool(z3.And(ILOG2(m) >= 0, m == POW2(ILOG2(m))))
+
+
 def register(reg):
     track_model.register(reg)
-    reg.specfuncs.update(gaps=sf_gaps)
+    reg.specfuncs.update(gaps=sf_gaps, ispow2=sf_ispow2)
+    reg.axioms.append(("pow2", ax_pow2))
     reg.auto_inline |= {T + m for m in ("addObs", "setUid", "setTid", "_Track__transmitAF", "__init__", "_Track__removeObsById")}
 
     reg.add(Spec(T + "extract", dict(self="Track", id_ini="int", id_fin="int"), "Track",
@@ -109,6 +127,84 @@ def register(reg):
                      hints=["use gaps(tab_idx)"])}))
 
 
-FUNCTIONS = [T + n for n in ("extract", "__gt__", "__lt__", "__mod__", "__add__", "_Track__removeObsListById")]
-ASSUMPTIONS = ["np.argsort (Track.sort) is outside the proved part: bounded only",
+    # ---------------------------------------------------------------- sort by time (numpy.argsort: trusted model)
+    n = "npts(self)"
+    OLD = "old(pts(self))"
+    reg.add(Spec(T + "getTimestamps", dict(self="Track"), "list[ObsTime]", locals=dict(T="list[ObsTime]"),
+                 loops={"1": LoopSpec(inv=["len(T) == i", "all(T[r] is obs(self, r).timestamp for r in range(0, i))"])},
+                 ensures=[("one-per-observation", "len(result) == %s and all(result[r] is obs(self, r).timestamp for r in range(0, %s))" % (n, n))]))
+    reg.add(Spec(T + "sort", dict(self="Track"), "none", modifies=["Track." + PTS], locals=dict(new_list="list[Obs]"),
+                 requires=["all(wf(tstamp(self, r)) for r in range(0, %s))" % n],
+                 loops={"1": LoopSpec(inv=["len(new_list) == i", "unchanged('Track.%s')" % PTS,
+                                           "all(new_list[r] is %s[sort_index[r]] for r in range(0, i))" % OLD])},
+                 hints=[("the-observation-at-each-rank", "all(pts(self)[r] is %s[sort_index[r]] for r in range(0, %s))" % (OLD, n)),
+                        ("where-each-observation-went", "all(pts(self)[argsort_inverse[j]] is %s[j] and 0 <= argsort_inverse[j] and argsort_inverse[j] < %s "
+                         "for j in range(0, %s))" % (OLD, n, n))],
+                 ensures=[("same-number-of-observations", "%s == old(%s)" % (n, n)),
+                          ("non-decreasing-time", "all(implies(a < b, abstime(tstamp(self, a)) <= abstime(tstamp(self, b))) for a in range(0, %s) for b in range(0, %s))" % (n, n)),
+                          ("only-the-same-observation-objects", "all(any(pts(self)[r] is %s[j] for j in range(0, %s)) for r in range(0, %s))" % (OLD, n, n)),
+                          ("every-observation-kept", "all(any(pts(self)[r] is %s[j] for r in range(0, %s)) for j in range(0, %s))" % (OLD, n, n)),
+                          ("only-this-track", "unchanged_except('Track.%s', self)" % PTS)]))
+
+    # ---------------------------------------------------------------- insertion into a time-sorted track
+    AT = "abstime(tstamp(self, %s))"
+    SORTED = "all(implies(a < b, %s <= %s) for a in range(0, %s) for b in range(0, %s))" % (AT % "a", AT % "b", n, n)
+    TWF = "all(wf(tstamp(self, r)) for r in range(0, %s))" % n
+    M = "(delta if delta >= 0 else -delta)"
+    reg.add(Spec(T + "_Track__getInsertionIndex", dict(self="Track", timestamp="ObsTime"), "int",
+                 requires=[TWF, "wf(timestamp)", SORTED, "%s < 140737488355328" % n],      # fewer than 2**47 observations
+                 # the first step of the dichotomy is computed with float logarithms: 2 ** (floor(log2 N) - 1).  Assumed (and
+                 # checked exhaustively by the bounded part): it is a power of two, at least 1, at most N / 2.
+                 assume_stmt={"delta = 2 ** (int(math.log(N) / math.log(2)) - 1)": ("delta", "int", "ispow2(delta) and delta >= 1 and 2 * delta <= N")},
+                 at={"id = 0": ["ghost P = 2 * delta"]},
+                 loops={"1": LoopSpec(inv=["N == %s and N >= 2 and P <= N" % n, "0 <= id", "delta == 0 or ispow2(%s)" % M,
+                                           "implies(id == 0, delta >= 1 and 2 * delta == P)",
+                                           "implies(id >= 1 and %s >= 2, 2 * %s <= id and id + 2 * %s <= P)" % (M, M, M),
+                                           "implies(id >= 1 and delta == -1, id + 2 <= P)",
+                                           "implies(id >= 1 and delta == 1, id + 2 <= P)",
+                                           "implies(id >= 1 and delta == 0, id + 1 <= P)"]),
+                        "2": LoopSpec(inv=["0 <= id and id < N"], decreases="id"),
+                        "3": LoopSpec(inv=["0 <= id and id < N", "all(%s <= abstime(timestamp) for r in range(0, id))" % (AT % "r")],
+                                      decreases="N - id")},
+                 hints=[],
+                 ensures=[("an-insertion-rank", "0 <= result and result <= %s" % n),
+                          ("everything-before-is-not-later", "all(%s <= abstime(timestamp) for r in range(0, result))" % (AT % "r")),
+                          ("everything-from-there-on-is-not-earlier", "all(%s >= abstime(timestamp) for r in range(result, %s))" % (AT % "r", n))]))
+    reg.add(Spec(T + "insertObs", dict(self="Track", obs="Obs", i="int"), "none", modifies=["Track." + PTS],
+                 requires=["0 <= i and i <= %s" % n],
+                 ensures=[("one-more", "%s == old(%s) + 1 and pts(self)[i] is obs" % (n, n)),
+                          ("before", "all(pts(self)[r] is %s[r] for r in range(0, i))" % OLD),
+                          ("after", "all(pts(self)[r + 1] is %s[r] for r in range(i, old(%s)))" % (OLD, n)),
+                          ("only-this-track", "unchanged_except('Track.%s', self)" % PTS)]), variant="index")
+    reg.add(Spec(T + "insertObsInChronoOrder", dict(self="Track", obs="Obs"), "none", modifies=["Track." + PTS],
+                 requires=[TWF, "wf(obs.timestamp)", SORTED, "%s < 140737488355328" % n],
+                 hints=[("rank", "0 <= ret1_getInsertionIndex and ret1_getInsertionIndex <= old(%s) and %s == old(%s) + 1" % (n, n, n)),
+                        ("times-before", "all(implies(r < ret1_getInsertionIndex, %s == old(%s)) for r in range(0, %s))" % (AT % "r", AT % "r", n)),
+                        ("time-at", "%s == abstime(obs.timestamp)" % (AT % "ret1_getInsertionIndex")),
+                        ("times-after", "all(implies(r > ret1_getInsertionIndex, %s == old(%s)) for r in range(0, %s))" % (AT % "r", AT % "(r - 1)", n))],
+                 ensures=[("one-more", "%s == old(%s) + 1" % (n, n)),
+                          ("still-sorted", SORTED),
+                          ("the-new-observation-is-in", "any(pts(self)[r] is obs for r in range(0, %s))" % n),
+                          ("inserted-at-one-rank-the-others-in-their-order", "any(pts(self)[k] is obs and all(pts(self)[r] is %s[r] for r in range(0, k)) and "
+                           "all(pts(self)[r + 1] is %s[r] for r in range(k, old(%s))) for k in range(0, %s))" % (OLD, OLD, n, n)),
+                          ("only-this-track", "unchanged_except('Track.%s', self)" % PTS)]))
+
+    reg.add(Spec(T + "insertObs", dict(self="Track", obs="Obs"), "none", modifies=["Track." + PTS],
+                 requires=[TWF, "wf(obs.timestamp)", SORTED, "%s < 140737488355328" % n],
+                 ensures=[("one-more", "%s == old(%s) + 1" % (n, n)),
+                          ("still-sorted", SORTED),
+                          ("the-new-observation-is-in", "any(pts(self)[r] is obs for r in range(0, %s))" % n),
+                          ("inserted-at-one-rank-the-others-in-their-order", "any(pts(self)[k] is obs and all(pts(self)[r] is %s[r] for r in range(0, k)) and "
+                           "all(pts(self)[r + 1] is %s[r] for r in range(k, old(%s))) for k in range(0, %s))" % (OLD, OLD, n, n)),
+                          ("only-this-track", "unchanged_except('Track.%s', self)" % PTS)]), variant="chrono")
+
+
+FUNCTIONS = [T + n for n in ("_Track__getInsertionIndex", "insertObs@index", "insertObsInChronoOrder", "insertObs@chrono", "extract", "__gt__", "__lt__", "__mod__", "__add__", "_Track__removeObsListById", "getTimestamps", "sort")]
+ASSUMPTIONS = ["numpy.argsort is a trusted model (Track.sort): it returns a permutation of the indices along which the keys do not decrease; "
+               "timestamps are keyed by ObsTime.__lt__, i.e. by abstime (C03)",
+               "__getInsertionIndex: the statement `delta = 2 ** (int(math.log(N) / math.log(2)) - 1)` is not executed symbolically; ASSUMED: it yields a "
+               "power of two in [1, N / 2] (checked exhaustively for N < 2**17 (quick) / 2**22 (thorough) and around every power of two below 2**47 by the "
+               "bounded part, on the expression read from the source); tracks have fewer than 2**47 observations; termination of the dichotomy loop "
+               "is not proved (the two linear fix-up loops have variants)",
+               "2**e / floor(log2) enter only through three trusted arithmetic axioms (pow2(0) = 1, pow2(e) = 2 pow2(e-1), ilog2(pow2(e)) = e)",
                "lists have value semantics: Track(self.__POINTS[a:b]) builds a new list in Python as in the encoding"]
